@@ -234,7 +234,13 @@ class FeArray(np.ndarray):
 
         # np.matmul(a, b) called as a function follows the same rank rule as `a @ b` (numpy's own
         # matmul would take a vector field for a stack of matrices whenever nPg matches)
-        if ufunc is np.matmul and method == "__call__" and len(inputs) == 2:
+        if (
+            ufunc is np.matmul
+            and method == "__call__"
+            and len(inputs) == 2
+            # explicit `axes` (or any other keyword) state which axes are multiplied: numpy's meaning
+            and set(kwargs) <= {"dtype", "out"}
+        ):
             left, right = inputs
             if isinstance(left, FeArray):
                 res = FeArray.__matmul__(left, right)
